@@ -26,7 +26,7 @@ def run(ctx):
     files = [ctx.path("mem.ndjson"), ctx.path("both.ndjson"), ctx.path("conc.ndjson")]
     ctx.harness(binary, ["-plans", pdir, "-plansr", rdir, "-out", files[0], "-both", files[1],
                          "-conc", files[2], "-seed", ctx.seed, "-hist", ctx.q(250, 4000),
-                         "-nboth", ctx.q(150, 2500), "-nconc", ctx.q(80, 1000),
+                         "-nboth", ctx.q(150, 2500), "-nconc", ctx.q(80, 1000), "-nrconc", ctx.q(80, 1000),
                          "-maxops", ctx.q(60, 120)], traces=files)
     # 4. validate what the real code did
     mem = ctx.load_traces(files[0])
@@ -50,6 +50,9 @@ def run(ctx):
         "own last touch (failed must-not-exist Sets and consuming reads count as touches of the other "
         "key) or while the clock stands exactly on its deadline",
         "concurrent histories: inv/res logged outside the cache lock; TLC searches for a linearization",
+        "redis-backed races: every command reaching the fake server is a gate; the driver serves the parked "
+        "callers' commands one at a time in a seeded order (commands atomic, interleaving controlled); "
+        "no update-ttl in these programs (Get+Expire is not atomic by design), clock far from deadlines",
     ]
     return ctx.finish(
         rule="plans = TLC simulation of TTL.tla (4 keys, size 0..3, ttl {<=0,1,2,4}, ticks 1..2, fresh value "
